@@ -32,7 +32,7 @@ def run_seed(prop, seed, tier, profile=None, overrides=None):
     all_viols = [v.to_json() for v in rr.violations]
     rec = {
         "seed": seed,
-        "profile": profile,
+        "profile": profile + ("+" + ",".join(f"{k}={v}" for k, v in sorted(overrides.items())) if overrides else ""),
         "steps": rr.steps,
         "checked": rr.checked,
         "digest": rr.digest,
@@ -195,7 +195,12 @@ def run_recipes_for_prop(prop, cfg, recipes, twin=None):
     cfg = dict(cfg)
     if prop not in ("C08", "C15", "C18", "C14") or (twin is None and prop != "C14"):
         rr = runner.execute_run(cfg, recipes=copy.deepcopy(recipes))
-        return [v.to_json() for v in rr.violations if prop in v.props]
+        out = [v.to_json() for v in rr.violations if prop in v.props]
+        if prop == "C17" and not out:
+            from sim import enumerate_faults
+
+            out = enumerate_faults.continuation_violations(cfg, recipes)
+        return out
     out = []
     if prop == "C08":
         runs = twins.c08_twins(cfg, recipes)
